@@ -54,15 +54,15 @@ package dag
 //@   ensures [ref-exists] err == nil ==> (ref in repository.refs)
 //@   defines [head]       err == nil ==> entity.entityHead(result) == repository.refs[ref]
 //@   check [head-is-ref]  err == nil ==> rootHash == repository.refs[ref]
-//@   check [clock-edge] err == nil ==> (forall k int, j int :: { BFSOrder[k].Parents[j] } 0 <= k && k < len(BFSOrder) && 0 <= j && j < len(BFSOrder[k].Parents) ==> (BFSOrder[k].Parents[j] in oppMap) && oppMap[BFSOrder[k].Parents[j]].EditTime < oppMap[BFSOrder[k].Hash].EditTime)
-//@   check [clock-jump] err == nil ==> (forall k int, j int :: { BFSOrder[k].Parents[j] } 0 <= k && k < len(BFSOrder) && 0 <= j && j < len(BFSOrder[k].Parents) && len(BFSOrder[k].Parents) <= 1 ==> oppMap[BFSOrder[k].Hash].EditTime - oppMap[BFSOrder[k].Parents[j]].EditTime <= 1000000)
+//@   check [clock-edge] err == nil ==> (forall k int :: { BFSOrder[k] } 0 <= k && k < len(BFSOrder) ==> (forall j int :: { BFSOrder[k].Parents[j] } 0 <= j && j < len(BFSOrder[k].Parents) ==> (BFSOrder[k].Parents[j] in oppMap) && oppMap[BFSOrder[k].Parents[j]].EditTime < oppMap[BFSOrder[k].Hash].EditTime))
+//@   check [clock-jump] err == nil ==> (forall k int :: { BFSOrder[k] } 0 <= k && k < len(BFSOrder) && len(BFSOrder[k].Parents) <= 1 ==> (forall j int :: { BFSOrder[k].Parents[j] } 0 <= j && j < len(BFSOrder[k].Parents) ==> oppMap[BFSOrder[k].Hash].EditTime - oppMap[BFSOrder[k].Parents[j]].EditTime <= 1000000))
 //@   loop 3
 //@     invariant opsCount >= 0
 //@     invariant forall h repository.Hash :: { oppMap[h] } h in oppMap ==> oppMap[h] != nil
 //@     invariant forall k int :: { BFSOrder[k] } 0 <= k && k <= rangeindex ==> BFSOrder[k].Hash in oppMap
 //@   loop 4
-//@     invariant forall k int, j int :: { BFSOrder[k].Parents[j] } 0 <= k && k <= rangeindex && 0 <= j && j < len(BFSOrder[k].Parents) ==> (BFSOrder[k].Parents[j] in oppMap) && oppMap[BFSOrder[k].Parents[j]].EditTime < oppMap[BFSOrder[k].Hash].EditTime
-//@     invariant forall k int, j int :: { BFSOrder[k].Parents[j] } 0 <= k && k <= rangeindex && 0 <= j && j < len(BFSOrder[k].Parents) && len(BFSOrder[k].Parents) <= 1 ==> oppMap[BFSOrder[k].Hash].EditTime - oppMap[BFSOrder[k].Parents[j]].EditTime <= 1000000
+//@     invariant forall k int :: { BFSOrder[k] } 0 <= k && k <= rangeindex ==> (forall j int :: { BFSOrder[k].Parents[j] } 0 <= j && j < len(BFSOrder[k].Parents) ==> (BFSOrder[k].Parents[j] in oppMap) && oppMap[BFSOrder[k].Parents[j]].EditTime < oppMap[BFSOrder[k].Hash].EditTime)
+//@     invariant forall k int :: { BFSOrder[k] } 0 <= k && k <= rangeindex && len(BFSOrder[k].Parents) <= 1 ==> (forall j int :: { BFSOrder[k].Parents[j] } 0 <= j && j < len(BFSOrder[k].Parents) ==> oppMap[BFSOrder[k].Hash].EditTime - oppMap[BFSOrder[k].Parents[j]].EditTime <= 1000000)
 //@   loop 5
 //@     invariant forall j int :: { commit.Parents[j] } 0 <= j && j <= rangeindex ==> (commit.Parents[j] in oppMap) && oppMap[commit.Parents[j]].EditTime < opp.EditTime
 //@     invariant forall j int :: { commit.Parents[j] } 0 <= j && j <= rangeindex && len(commit.Parents) <= 1 ==> opp.EditTime - oppMap[commit.Parents[j]].EditTime <= 1000000
